@@ -169,12 +169,14 @@ class Dec(L.SymVal):
 
 
 class OStr(L.SymVal):
-    """opaque string term (sort PStr), e.g. Base58Check of a rope; `sepfree`: contains no '/'"""
-    __slots__ = ("t", "label")
+    """opaque string term (sort PStr), e.g. Base58Check of a rope.  `inj` = (tag, ints..., rope): the term
+    is an injective function (C10/C11 lemmas) of these arguments, so equality is decided argument-wise"""
+    __slots__ = ("t", "label", "inj")
 
-    def __init__(self, t, label=""):
+    def __init__(self, t, label="", inj=None):
         self.t = t
         self.label = label
+        self.inj = inj
 
 
 class SStr(L.SymVal):
@@ -224,30 +226,75 @@ class SStr(L.SymVal):
         return "SStr(" + "+".join(r) + ")"
 
 
-def sstr_eq(a, b):
-    """sound but incomplete equality of structured strings: part-wise when shapes agree."""
-    pa, pb = a.parts, b.parts
-    if len(pa) == len(pb):
+def _ostr_eq(a, b):
+    if a.inj is not None and b.inj is not None:
+        if a.inj[0] != b.inj[0] or len(a.inj) != len(b.inj):
+            return a.t == b.t
         conj = []
-        ok = True
-        for x, y in zip(pa, pb):
-            if isinstance(x, str) and isinstance(y, str):
-                if x != y:
-                    # different literals at the same structural position: with Dec neighbours the
-                    # strings could still coincide only if literals are digit strings; be exact
-                    # for the separators used here ("/", "'", "m")
-                    ok = None
-                    break
-            elif isinstance(x, Dec) and isinstance(y, Dec):
-                conj.append(eq(x.n, y.n))
-            elif isinstance(x, OStr) and isinstance(y, OStr):
-                conj.append(x.t == y.t)
+        for x, y in zip(a.inj[1:], b.inj[1:]):
+            if isinstance(x, L.Rope) or isinstance(y, L.Rope):
+                if len(x) != len(y):
+                    return False
+                conj.append(x.eq(y))
             else:
-                ok = None
-                break
-        if ok:
-            return land(*conj)
-    raise Undecided(f"string equality of different shapes: {a} vs {b}")
+                conj.append(eq(x, y))
+        return land(*conj)
+    return a.t == b.t
+
+
+def _sstr_tokens(s):
+    import re
+    toks = []
+    for p in s.parts:
+        if isinstance(p, str):
+            for m in re.finditer(r"\d+|\D+", p):
+                g = m.group(0)
+                toks.append(("digits" if g.isdigit() else "lit", g))
+        elif isinstance(p, Dec):
+            toks.append(("dec", p.n))
+        else:
+            toks.append(("ostr", p.t, p))
+    # a decimal rendering adjacent to a digit run / another rendering has no canonical token structure
+    for x, y in zip(toks, toks[1:]):
+        if x[0] in ("dec", "digits") and y[0] in ("dec", "digits"):
+            raise Undecided(f"ambiguous decimal adjacency in {s}")
+        if x[0] == "lit" and x[1].endswith("-") and y[0] in ("dec", "digits"):
+            raise Undecided(f"sign adjacency in {s}")
+    return toks
+
+
+def sstr_eq(a, b):
+    """equality of structured strings by canonical tokens (maximal digit runs / non-digit chunks /
+    decimal renderings / opaque parts).  A decimal rendering Dec(n) is one digit run only for n >= 0:
+    that side condition is part of the returned formula.  Different token structures: undecided."""
+    ta, tb = _sstr_tokens(a), _sstr_tokens(b)
+    if len(ta) != len(tb):
+        raise Undecided(f"string equality of different shapes: {a} vs {b}")
+    conj = []
+    for x, y in zip(ta, tb):
+        kx, ky = x[0], y[0]
+        if kx == "lit" and ky == "lit":
+            if x[1] != y[1]:
+                return False
+        elif kx == "digits" and ky == "digits":
+            if x[1] != y[1]:
+                return False
+        elif kx == "dec" and ky == "dec":
+            conj.append(eq(x[1], y[1]))
+        elif {kx, ky} == {"dec", "digits"}:
+            n, d = (x[1], y[1]) if kx == "dec" else (y[1], x[1])
+            if d != str(int(d)):
+                return False
+            conj.append(eq(n, int(d)))
+        elif kx == "ostr" and ky == "ostr":
+            conj.append(_ostr_eq(x[2], y[2]))
+        else:
+            raise Undecided(f"string equality of different shapes: {a} vs {b}")
+    # decimal renderings compared against digit runs / each other must be non-negative to be single runs
+    for x in ta + tb:
+        if x[0] == "dec" and is_sym(x[1]):
+            conj.append(x[1] >= 0)
+    return land(*conj)
 
 
 _PLIT = {}
@@ -1839,3 +1886,44 @@ def str_format(ctx, fmt, args, kwargs):
             return Opaque("formatted message")
         parts.append(sv)
     return mk_str(parts)
+
+
+# ----------------------------------------------------------------------------- mocks (external objects by contract)
+class Mock(L.SymVal):
+    """an external / summarised object: attribute reads give preset values or child mocks; calls are
+    recorded in ctx.effects (in order) and return preset results or child mocks"""
+    def __init__(self, tag, attrs=None, results=None, raises=None):
+        self.tag = tag
+        self.attrs = dict(attrs or {})
+        self.results = dict(results or {})      # method name -> value | callable(ctx, args, kwargs)
+        self.raises = dict(raises or {})        # method name -> exception class
+
+    def __repr__(self):
+        return f"Mock({self.tag})"
+
+    def sym_getattr(self, ctx, name):
+        if name in self.attrs:
+            return self.attrs[name]
+        return MockMethod(self, name)
+
+    def sym_truthy(self, ctx):
+        return True
+
+    def sym_eq(self, other):
+        return other is self
+
+
+class MockMethod(L.SymVal):
+    def __init__(self, owner, name):
+        self.owner, self.name = owner, name
+
+    def sym_call(self, ctx, args, kwargs):
+        ctx.effects.append((f"{self.owner.tag}.{self.name}", tuple(args), dict(kwargs)))
+        if self.name in self.owner.raises:
+            raise PyRaise(self.owner.raises[self.name])
+        r = self.owner.results.get(self.name)
+        if callable(r):
+            return r(ctx, args, kwargs)
+        if r is not None or self.name in self.owner.results:
+            return r
+        return Mock(f"{self.owner.tag}.{self.name}()", attrs=dict(_args=tuple(args), _kwargs=dict(kwargs), _of=self.owner))
